@@ -149,3 +149,13 @@ Theorem script_tie_meaning : forall c,
     exec_function rec (sc_fields c) o qn attrs (sc_body c) st = repr_obj h rec o st.
 Proof. exact script_tie_meaning_l. Qed.
 Print Assumptions script_tie_meaning.
+
+(** The "already being rendered" test is by object IDENTITY: an instance that is not
+    itself (same object) in the thread's set is never rendered as ['...'], however it
+    compares under [==] to the instances that are. *)
+Theorem repr_marker_only_for_same_object : forall h n o st qn sf bs fs attrs s st',
+  nth_error h o = Some (OI qn sf bs fs attrs) ->
+  ~ In o (aset st) ->
+  repr_val h (S n) (VRef o) st = (Ok s, st') -> s <> "...".
+Proof. exact repr_marker_only_for_same_object_l. Qed.
+Print Assumptions repr_marker_only_for_same_object.
